@@ -3,6 +3,8 @@ mod bbs;
 mod engine;
 mod gen;
 mod props;
+mod refcheck;
+mod refimpl;
 
 use engine::*;
 use serde_json::Value;
@@ -33,6 +35,13 @@ fn main() {
         .and_then(|s| s.parse().ok())
         .unwrap_or_else(|| std::thread::available_parallelism().map(|n| n.get()).unwrap_or(8).min(16));
     match args[1].as_str() {
+        "refcheck" => match refcheck::validate_reference() {
+            Ok(n) => println!("reference model reproduces all fixtures ({} items)", n),
+            Err(e) => {
+                println!("reference model mismatch: {}", e);
+                std::process::exit(2);
+            }
+        },
         "list" => {
             for (id, _, _, _) in registry() {
                 println!("{}", id);
